@@ -156,7 +156,7 @@ fn no_history_draw_in_table(state: &crate::engine::search::PersistentState, earl
 }
 
 pub fn run(run: &mut Run) -> &'static str {
-    let cases = run.tier.pick(240_000, 6_000_000);
+    let cases = run.tier.pick(500_000, 6_000_000);
     run.proptest_part("games", RULE, hist_case(4..200), cases, |case: &HistCase, st: &mut Stats| {
         let mut obs = Obs::default();
         let mix = match case {
